@@ -137,7 +137,7 @@ def w_names(case):
 def category(what: str) -> str:
     for key in ("view after reopen", "view after discard", "of another record", "committed container",
                 "sidecar of committed", "must not alter anything", "the contract says", "disappeared",
-                "left containers", "is not empty", "reports mode", "writable container present",
+                "left containers", "is not empty", "by the complete file list", "close() left", "close(commit=False) committed", "reports mode", "writable container present",
                 "succeeded on a record opened read-only"):
         if key in what:
             return key
@@ -258,6 +258,8 @@ def run(ctx: vlib.Ctx):
         for k, (m, ob) in enumerate(zip(mr, res["obs"])):
             ci = R.canon_impl(ob)
             cm = R.canon_model(m, with_tokens=True)
+            ci["outcome"] = R.coarse(ci["outcome"], res["concrete"][k])
+            cm["outcome"] = R.coarse(cm["outcome"], res["concrete"][k])
             if ci != cm:
                 disagreements.append({"kind": "script", "case": i, "step": k, "cmd": res["concrete"][k],
                                       "model": cm, "impl": ci, "rich": res["rich"]})
@@ -350,13 +352,16 @@ def run(ctx: vlib.Ctx):
             harness_errors.append({"names_oracle": names, "error": f"{type(e).__name__}: {e}"})
             continue
         if probs and name_viol is None:
-            def nf(sub):
+            want = "picks up" if any("picks up" in p for p in probs) else ""
+
+            def nf(sub, want=want):
                 try:
-                    return bool(R.names_oracle(sub, [1]))
+                    return any(want in p for p in R.names_oracle(sub, [1]))
                 except Exception:  # noqa: BLE001
                     return False
             small = vlib.ddmin(list(names), nf, budget=40) if nf(list(names)) else names
-            name_viol = (small, R.names_oracle(small, [1]) or probs)
+            sp = [p for p in R.names_oracle(small, [1]) if want in p] or probs
+            name_viol = (small, sp)
     if name_viol is not None:
         small, probs = name_viol
         ctx.violation(f"file discovery is not exact for names the code accepts: {probs[0]}",
